@@ -583,6 +583,14 @@ fn string_cases(thorough: bool) -> Vec<(String, Vec<StrSpec>)> {
         let other = &tricky[(i + 1) % tricky.len()];
         v.push((format!("tricky string #{}", i), vec![[Some(s.clone()), Some(other.clone()), None, Some(s.clone()), None], [Some(other.clone()), None, Some(s.clone()), None, Some(s.clone())], [None, Some(s.clone()), None, None, None]]));
     }
+    let mut pairs: Vec<(String, String)> = vcore::collide::pairs().iter().map(|(_, a, b)| (a.clone(), b.clone())).collect();
+    pairs.extend(vcore::sjis::suffix_pairs());
+    for (i, (a, b)) in pairs.iter().enumerate() {
+        v.push((format!("string pair #{}", i), vec![[Some(a.clone()), Some(b.clone()), None, None, Some(a.clone())], [Some(b.clone()), None, Some(a.clone()), Some(b.clone()), None]]));
+    }
+    for (i, chunk) in vcore::sjis::domain().chunks(60).enumerate() {
+        v.push((format!("domain characters #{}", i), chunk.chunks(3).map(|c| -> StrSpec { [Some(format!("{}n", c[0])), c.get(1).map(|x| x.to_string()), None, c.get(2).map(|x| format!("a{}", x)), None] }).collect()));
+    }
     let (nl, nc) = if thorough { (1300usize, 2500usize) } else { (300, 600) };
     for l in 0..=nl {
         let a: String = "abcdefghijklmnopqrstuvwxyz".chars().cycle().take(l).collect();
